@@ -145,7 +145,31 @@ def classify(verdict, detail):
         if z['code'] == 'attr-amp':
             return 'autolink-mailto-target-raw-amp'
         return 'autolink-mailto-target-unescaped'
-    return 'unclassified-' + z['code']
+    if z.get('tag') == 'a' and z.get('attr') == 'href' and '@' in z.get('near', ''):
+        return 'autolink-target-unescaped'
+    tag, attr, code = z.get('tag'), z.get('attr'), z['code']
+    names = {('img', 'alt'): 'image-alt', ('img', 'title'): 'image-title', ('a', 'href'): 'link-href',
+             ('a', 'title'): 'link-title', ('code', 'class'): 'code-language-class',
+             ('ol', 'start'): 'list-start', ('td', 'align'): 'table-cell-align',
+             ('th', 'align'): 'table-cell-align'}
+    if (tag, attr) in names:
+        if code == 'attr-amp':
+            return names[(tag, attr)] + '-raw-amp'
+        if code in ('attr-value-terminated-early', 'attr-value-has-angle-bracket-or-unterminated'):
+            return names[(tag, attr)] + '-unescaped'
+        return names[(tag, attr)] + '-' + code
+    if code in ('text-raw-lt', 'text-raw-gt', 'text-raw-amp'):
+        return 'text-unescaped-' + code[-2:].replace('mp', 'amp')
+    if code in ('nesting', 'unclosed', 'bad-closing-tag', 'void-not-selfclosed', 'nonvoid-selfclosed'):
+        return 'tags-not-properly-nested-' + code
+    if code in ('tag-not-in-vocabulary', 'attr-not-in-vocabulary', 'attr-on-wrong-tag', 'attr-duplicate',
+                'tag-syntax'):
+        return 'markup-outside-vocabulary-' + code
+    if code == 'raw-piece-not-found':
+        return 'raw-html-not-verbatim'
+    if code == 'history-dependent':
+        return 'history-dependent-output'
+    return 'unclassified-' + code
 
 
 OPTS4 = [o for o in OPTS if o[1] == o[2]]     # process_html_tokens x (both quote options equal)
@@ -388,6 +412,301 @@ def gen_attack(seen, alpha_n, thorough):
     return out
 
 
+# ---------------------------------------------------------------------------------------------
+# DIRECTED families (deterministic, identical for every seed).  They close coverage holes of the
+# template grammar above: multi-line image descriptions (hard/soft line breaks inside alt text),
+# inline constructs inside alt text, '@'-carrying URI autolinks (mailto branch of the renderer),
+# e-mail autolinks over every legal local-part character, every attribute-producing construct
+# crossed with control characters / percent-encodings, and all of that nested in block quotes,
+# list items (with and without lazy continuation lines), headings, table cells, link text.
+
+# inline constructs that may occur inside an image description
+ALT_ATOMS = [
+    'a', '"', "'", '<', '>', '&', '\\"', '\\<', '\\>', '\\&', "\\'", '\\\\',
+    '&quot;', '&#34;', '&#x22;', '&lt;', '&gt;', '&amp;', '&#39;', '&apos;', '&copy;', '&nosuch;',
+    '&#0;', '&QUOT;', '&#60;', '&quot', '&#x3e;',
+    '*e*', '**s"**', '_e<_', '~~d>~~', '***x&***', '*"*', '**<b>**',
+    '`c`', '`"`', '`<b>`', '`` ` ``', '`&amp;`', "`'`", '`>`',
+    '[l](v)', '[l"](v "t")', '[l](<v">)', '[l][r]', '[*l*"](v \'t"\')',
+    '![i](v)', '![i"](v "t\\"")', '![![k<](w)](v)', '![i][r]', '![`"`](v)',
+    '<http://x/"y>', '<ab:c@d"\'&>', '<a@b.c>', "<a'&`b@c.d>", '<mailto:a@b."c>',
+    '<b c="d">', '</b>', '<br/>', '<br />', '<!-- " > -->', '<?p " ?>', '<![CDATA[">]]>',
+    '<!X ">', '<i a=\'"\' b=">">', '<img src="x" alt="y">',
+    'é', '\U0001f642', '\u00a0', '\t', ' ', '\\', '!', '![', '](', ']', '[',
+]
+# the atoms that are crossed pairwise over the line joins
+ALT_CORE = [
+    'a', '"', "'", '<', '>', '&', '\\"', '&quot;', '&#34;', '&lt;', '*e"*', '**s**', '`"`', '`<b>`',
+    '[l"](v "t")', '![i"](v)', '<http://x/"y>', '<a@b.c>', '<b c="d">', '</b>', '<!-- " -->',
+    '<br />', 'é', '\U0001f642',
+]
+# what may stand between two atoms of a description: hard breaks (>= 2 blanks, backslash), soft
+# breaks (with trailing / leading blanks), blanks, nothing
+ALT_JOINS = ['  \n', '\\\n', '\n', ' \n', '     \n', '\n   ', '\t\n', '  \n  ', ' ', '']
+ALT_MULTI = [j for j in ALT_JOINS if '\n' in j]
+IMG_FORMS = ['![{A}](u)', '![{A}](u "t")', '![{A}](<u v> \'t"\')', '![{A}][r]\n\n[r]: u "t"',
+             '![{A}][]\n\n[r]: u', '![{A}]\n\n[r]: u', '![{A}]()', '![{A}](u\n"t\nt")']
+IMG_FORMS_CORE = IMG_FORMS[:2]
+
+# contexts for an inline snippet {S}
+INLINE_CTX = ['{S}', 'x {S} y', '# {S}', '{S}\n===', '*{S}*', '**{S}**', '[{S}](v)', '[{S}](v "t")',
+              '![{S}](v)', '| {S} | b |\n|:-:|--:|\n| c | {S} |', '{S}{S}', '{S}  \n{S}', '\\{S}',
+              '~~{S}~~', '[{S}][r]\n\n[r]: u', '{S}\n\n{S}']
+INLINE_CTX_CORE = ['{S}', '# {S}', '[{S}](v)', '*{S}*']
+# block contexts: how the lines of a document are embedded in containers
+BLOCK_CTX = ['quote', 'quote-lazy', 'ul', 'ul-lazy', 'ol', 'quote-ul', 'ul-loose', 'ul-ul', 'after-text',
+             'ul-quote', 'quote-quote-lazy']
+
+
+def _wrap(doc, ctx):
+    ls = doc.split('\n')
+    first, rest = ls[0], ls[1:]
+
+    def pre(p1, p2):
+        return '\n'.join([p1 + first] + [(p2 + l) if (l or p2.strip()) else l for l in rest])
+    if ctx == 'quote':
+        return pre('> ', '> ')
+    if ctx == 'quote-lazy':
+        return pre('> ', '')
+    if ctx == 'ul':
+        return pre('- ', '  ')
+    if ctx == 'ul-lazy':
+        return pre('- ', '')
+    if ctx == 'ol':
+        return pre('7. ', '   ')
+    if ctx == 'quote-ul':
+        return pre('> - ', '>   ')
+    if ctx == 'ul-loose':
+        return '- x\n\n' + pre('  ', '  ') + '\n- y'
+    if ctx == 'ul-ul':
+        return '- x\n' + pre('  * ', '    ') + '\n- y'
+    if ctx == 'after-text':
+        return 'x\n' + doc + '\ny'
+    if ctx == 'ul-quote':
+        return pre('- > ', '  > ')
+    if ctx == 'quote-quote-lazy':
+        return pre('> > ', '> ')
+    raise ValueError(ctx)
+
+
+def gen_image_alt():
+    """images whose description spans lines / contains other inline constructs"""
+    alts = list(ALT_ATOMS)
+    for a in ALT_CORE:
+        for b in ALT_CORE:
+            for j in ALT_JOINS:
+                alts.append(a + j + b)
+    # three lines, hostile characters right after / before the breaks
+    for j1 in ('  \n', '\\\n', '\n'):
+        for j2 in ('  \n', '\\\n', '\n'):
+            for a in ('"', '<', 'x'):
+                alts.append('a' + j1 + a + j2 + 'b')
+                alts.append(a + j1 + j2.lstrip(' ') + a)
+    alts += ['x  \ny" onerror="alert(1)', 'x\\\ny" onerror="alert(1)', 'a  \n', '  \nb', 'a\\\n', '\\\nb',
+             '*a  \nb*', '**a\\\nb**', '`a  \nb`', '[a  \nb](v)', '![a  \nb](v)', '[a\\\n"](v "t\nt")',
+             'a  \n> b', 'a  \n- b', 'a\\\n# b', 'a  \n    b', 'a\\\n```', 'a  \n<div>', 'a\\\n<!-- x',
+             '<b\nc="d">', '<!-- a\nb -->', '`a\n"`', '*a\n"*', '<http://x\ny>', 'a  \n  \nb', '']
+    out = []
+    core8 = ('a', '"', '<', '&quot;', '`"`', '<b c="d">', '*e"*', '<a@b.c>')
+    pair8 = set(a + j + b for a in core8 for b in core8 for j in ALT_MULTI)
+    single = set(ALT_ATOMS)
+    for alt in alts:
+        multi = '\n' in alt
+        full = alt in single or alt in pair8 or (multi and alt.count('\n') != 1) or len(alt) > 24
+        if alt in single or not alt:
+            forms, ctxs = IMG_FORMS, INLINE_CTX
+        elif full:
+            forms, ctxs = IMG_FORMS[:4], INLINE_CTX_CORE
+        elif multi:
+            forms, ctxs = (IMG_FORMS[0], IMG_FORMS[1], IMG_FORMS[3]), ('{S}', '[{S}](v)')
+        else:
+            forms, ctxs = IMG_FORMS[:2], INLINE_CTX_CORE
+        for f in forms:
+            img = f.replace('{A}', alt)
+            if f not in IMG_FORMS_CORE:
+                out.append(img)
+                continue
+            for c in (ctxs if f == IMG_FORMS[0] else ctxs[:1]):
+                d = c.replace('{S}', img)
+                out.append(d)
+                if full and c in ('{S}', '[{S}](v)'):
+                    for b in BLOCK_CTX:
+                        out.append(_wrap(d, b))
+    return out
+
+
+EMAIL_SPECIALS = ".!#$%&'*+/=?^_`{|}~-"
+AUTO_BODY = ['@', '"', "'", '&', '`', '{', '}', '|', '\\', '^', '[', ']', '%22', '%', 'é', '&quot;',
+             '&amp;', '&#34;', '*', '_', '//h/', '?q=', '#f', ';', ',', '(', ')', '~', '\\"', '\\&',
+             '{}|', '"\'&`', '\U0001f642', '\u00a0', '=', '$', '!', '%3C', '%3E', '+', '.', 'mailto:',
+             'MAILTO:', 'x']
+AUTO_SCHEMES = ['ab', 'http', 'https', 'mailto', 'MAILTO', 'MailTo', 'a+b.c-d', 'x2', 'ftp', 'irc',
+                'a' * 32, 'a' * 33, 'a']
+
+
+def gen_autolinks():
+    """URI autolinks whose body carries '@' (the renderer's mailto branch) and e-mail autolinks"""
+    autos = []
+    core = []
+    for a in AUTO_BODY:
+        for b in AUTO_BODY:
+            autos.append('<ab:x%s@%sy>' % (a, b))
+            autos.append('<http://u:p@h/%s%s>' % (a, b))
+            autos.append('<https://h/%s%s>' % (a, b))
+            autos.append('<mailto:%sx@y%s>' % (a, b))
+    for sch in AUTO_SCHEMES:
+        for a in AUTO_BODY:
+            for body in ('u@h%s', '%s@h', '%s', 'u@h/?q=%s&r=%s', '@%s', '%s@'):
+                x = '<%s:%s>' % (sch, body.replace('%s', a))
+                autos.append(x)
+                if sch in ('ab', 'mailto') and body in ('u@h%s', '%s'):
+                    core.append(x)
+    doms = ['c.d', 'c', 'c-d.e-f', 'C.D', '1.2', 'c.d.', 'c..d', '-c.d', 'c_d.e', 'é.d', 'c.d"', 'c.d&e']
+    for c in EMAIL_SPECIALS:
+        for pat in ('a%sb', '%s', '%s%s', '%sa', 'a%s'):
+            x = '<%s@c.d>' % pat.replace('%s', c)
+            autos.append(x)
+            core.append(x)
+        for c2 in EMAIL_SPECIALS:
+            autos.append('<%s%s@h.i>' % (c, c2))
+            autos.append('<a%sb%sc@h.i>' % (c, c2))
+    for d in doms:
+        for loc in ('a', EMAIL_SPECIALS, "a'&`b", 'a"b', 'a<b', 'a b', 'a\\b', 'a@b', 'é'):
+            autos.append('<%s@%s>' % (loc, d))
+    core += ['<%s@c.d>' % EMAIL_SPECIALS, '<ab:x@y"\'&`{}|>', '<http://u@h"onclick="x>', "<a'b@c.d>",
+             '<a&b@c.d>', '<a`b@c.d>', '<a{|}b@c.d>', '<ab:a@b"c>', '<MAILTO:a@b"c>', '<mailto:a@b"c>']
+    autos += core
+    out = list(autos)
+    for x in core:
+        for c in INLINE_CTX:
+            d = c.replace('{S}', x)
+            out.append(d)
+            if c in ('{S}', '![{S}](v)'):
+                for b in BLOCK_CTX:
+                    out.append(_wrap(d, b))
+    return out
+
+
+# hostile strings that are crossed with every attribute sink but NOT squared
+HOSTILE_EXTRA = [
+    '\n', 'a\nb', '"\n"', '\n"', '"\n', 'a\n\nb', '  \n', '\\\n', 'a  \nb', 'a\\\nb', '<\n>',
+    '%3C', '%3E', '%27', '%26', '%0A', '%09', '%', '%2', '%zz', '%25', '%2522', '%22%3E%3Cscript%3E',
+    "\\'", '\\&', '\\`', '\\\t', '\\\n"', '\\\\', '\\\\\\"',
+    '\U0001f642', '\u00a0', '\u2028', '\u2029', '\x85', '\r', 'a\r\nb', '\x0b', '\x0c', '\x7f', '\x1f',
+    '\ufffd', '\ufeff', '\u200b', 'a\u0301', '\uff02', '\uff1c', '\u02ba',
+    '&#10;', '&#9;', '&#13;', '&NewLine;', '&Tab;', '&#xD;', '&QUOT;', '&apos;', '&AMP;', '&LT;', '&GT;',
+    '&lt;script&gt;', '&#x0022;', '&#0034;', '&#00000034;', '&#x110000;', '&#xD800;', '&nbsp;',
+    '&amp;quot;', '&amp;#34;', '&zwnj;', '&lt;&#x2F;a&gt;',
+    '\t"', '"\t', ' "', '" ', "'\"'", '"\'"', '``', '```', '~~~', '`"`', '|', '\\|', '"|"', '{', '}',
+    'language-', 'a.b', 'a"b c"d', 'a=b', '=', ' = "', '*"*', '_"_', '**"**', '[x](y")', '![x](y")',
+    '<a@b.c>', '<http://x"y>', '<b c="d">',
+]
+# attribute sinks not yet in TEMPLATES (one slot)
+TEMPLATES_EXTRA = [
+    '[t](\n{H}\n)', '[t](u\n"{H}")', '[t](u "a\n{H}")', '[t]({H}\n"T")', '[t](<a{H}b> (x{H}y))',
+    '![a](\n{H}\n)', '![a](u\n"{H}")', '![a](u "a\n{H}")', '![a]({H}\n"T")', '![{H}\n{H}](u)',
+    '[r]: u\n  "a\n{H}"\n\n[r] ![r]', "[r]: <a{H}b>\n'{H}'\n\n![r][r]", '[r]: {H} ({H})\n\n[r][] ![r][]',
+    '[r]: u "{H}"\n[r]: v "w"\n\n[r] ![r]', '[r]: u "w"\n[R]: {H} "{H}"\n\n[r] ![R]',
+    '[a]: {H}\n[b]: <{H}>\n[c]: u "{H}"\n\n[a][b][c] ![a] ![b] ![c]',
+    '```{H}\n```', '```{H}', '~~~{H}', '   ```  {H}  \nc\n   ```', '````{H} {H}\n```\n````',
+    '~~~ {H}```\nc\n~~~', '~~~\t{H}\tb\nc\n~~~', '``` &quot;{H}\nc\n```', '``` \\"{H}\nc\n```',
+    '``` a"b{H}\nc\n```', '```{H}\n"<&>\'\n```',
+    '| a | b | c |\n|:-:|-:|:-|\n| {H} | {H} | {H} |\n| {H} |\n| 1 | 2 | 3 | {H} |',
+    '{H} | {H}\n-|-\n{H} | {H}', '| `{H}` | \\| |\n|:--|--:|\n| [t]({H}) | ![{H}](u) |',
+    '| a |\n|:{H}-:|\n| b |', '| a | b |\n|:-:|:-:|{H}\n| c |', '|{H}|\n|-|', 'a|b\n:-:|-:\n{H}',
+    '1. {H}\n2. {H}', '0. {H}', '007. {H}', '123456789. {H}', '1234567890. {H}', '2) {H}\n3) {H}',
+    '5. {H}\n\n   {H}\n6. x', '- {H}\n- {H}\n\n- {H}', '- {H}\n  - {H}\n    - {H}', '> {H}\n{H}\n> {H}',
+    '9.\n{H}', '-\n  {H}', '- a\n{H}', '> a\n{H}', '> - {H}\n>\n> - {H}', '1. a\n\n2. {H}\n3. b',
+    '# {H} #', '## [t]({H}) ![{H}](u) ##', '[t]({H})\n---', '![{H}](u "{H}")\n===',
+    '<{H}@c.d>', '<ab:u@h{H}>', '<ab:{H}@h>', '<https://h/{H}?{H}#{H}>', '<MAILTO:{H}>',
+    '[<{H}@c.d>](u)', '![<ab:x@{H}>](u)', '*<http://{H}>*',
+    '[t](u "{H}") [t](u \'{H}\') [t](u ({H})) ![{H}](u "{H}")', '[![{H}](u "{H}")](v "{H}")',
+    '[t](<{H}>"{H}")', '[t](u"{H}")', "[t](u '{H}' )", '[t]( <{H}> )', '[t](u "{H}" x)',
+    '[t][{H}]\n\n[{H}]: u "t"', '[{H}][]\n\n[{H}]: <u v> "{H}"', '![t][{H}]\n\n[{H}]: u',
+    '\\[t]({H})', '!\\[a]({H})', '[t]\\({H})', '`[t]({H})`', '<!-- [t]({H}) -->\n![a]({H})',
+    '<div>\n\n![{H}]({H} "{H}")\n\n</div>', '<b>![{H}](u)</b>', '<a href="x">[t]({H})</a>',
+    '    ![{H}](u)\n\n![{H}](u)', '***[t]({H})***', '~~![{H}]({H})~~',
+]
+ORDERED_STARTS = ['0', '1', '2', '007', '000000000', '123456789', '999999999', '1234567890', '-1', '+1',
+                  '1"', '"1', '\u0663', '\uff11', '\u00b2', '1_0', '0x10', '1e3', ' 1', '1\u00a0']
+ALIGN_ROWS = ['|-|-|', '|:-|-:|', '|:-:|:-:|', ':-:|-', '|:---:|', '| :-: | -: |', '|:-:|-:|:-|', '|-:|',
+              '|:-:\t|-|', '|::|-|', '|:-:|"|', '|-"-|-|', '|:-: x|-|', '-|-', '|\\:-:|-|', '| :- : |-|',
+              '|:-:|-:|:-|-|-|-|', '|:\u2014:|-|', '|=|=|', '|:-:|-|\n|:-|-:|']
+CELL_ROWS = ['| a | b |', '| " | < |', '| a |', '| a | b | c | d |', '||', '| \\| | `|` |', 'a | b',
+             '| [t](u "x") | ![a"](u) |', '| <b c="d"> | </b> |', '|"|\'|', '| a | b', 'a | b |', '|']
+
+
+def gen_attr_cross(seen_add):
+    for t in TEMPLATES + TEMPLATES_EXTRA:
+        for h in HOSTILE_EXTRA:
+            seen_add(t.replace('{H}', h))
+    for t in TEMPLATES_EXTRA:
+        for h in HOSTILE:
+            seen_add(t.replace('{H}', h))
+    # every sink x a short list of single hostile characters x every block context
+    short = ['"', "'", '<', '>', '&', '\\', '`', '\t', '%22', '&quot;', 'a\nb', '"\n"', '\\"', 'a b',
+             '"onerror="alert(1)', '\U0001f642']
+    for t in TEMPLATES + TEMPLATES_EXTRA:
+        if t.startswith('    '):
+            continue
+        for h in short:
+            d = t.replace('{H}', h)
+            for b in BLOCK_CTX:
+                seen_add(_wrap(d, b))
+    # ordered list start attribute
+    for n in ORDERED_STARTS:
+        for delim in ('.', ')'):
+            for body in (' x', ' "', '', ' x\n%s%s y' % (n, delim), '\n', ' - a\n', ' > "\n'):
+                d = n + delim + body
+                seen_add(d)
+                for b in ('quote', 'ul', 'ol', 'ul-loose', 'after-text'):
+                    seen_add(_wrap(d, b))
+    # table cell align attribute: header x delimiter row x body row (short / over-long rows)
+    for hd in CELL_ROWS:
+        for al in ALIGN_ROWS:
+            for bd in CELL_ROWS:
+                d = hd + '\n' + al + '\n' + bd
+                seen_add(d)
+                if bd == CELL_ROWS[1]:
+                    seen_add(d + '\n' + bd)          # identical sibling rows
+                    seen_add(hd + '\n' + al)         # no body at all
+                    for b in ('quote', 'quote-lazy', 'ul', 'ul-lazy', 'after-text'):
+                        seen_add(_wrap(d, b))
+    # empty content everywhere
+    for d in ['![]()', '[]()', '![](<>)', '[](<> "")', '<>', '![][]', '[]: u\n\n[]', '![]( "")', '```\n```',
+              '``` \n', '[ ]( )', '![ ]( " ")', "[]('')", '[](())', '![a](<>"")', '[r]:\n\n[r]', '[r]: <>\n\n[r] ![r]',
+              '[r]: <> ""\n\n[r] ![r]', '# ', '#', '>', '-', '1.', '|', '||\n||', '| |\n|-|\n| |', '<a@>', '<@b>',
+              '<:>', '<a:>', '<ab:>', '<ab:@>', '* * *\n- - -', '``', '` `', '**', '~~~~', '[]', '![]', '![]:']:
+        seen_add(d)
+        for b in BLOCK_CTX:
+            seen_add(_wrap(d, b))
+
+
+GEN_SUBST = [('fox', '"'), ('lazy', '<b a="'), ('brown', '&quot;'), ('over', '>'), ('and', '&'),
+             ('quick', "'"), ('/url', '/u"r<l>'), ('python', 'py"th&on'), ('title', 't"i<t>le&'),
+             ('jumps', '\\"'), ('the', '&#34;'), ('markdown', '<http://m@x"y>')]
+
+
+def gen_generated(seed, count):
+    """seeded structural documents of runtime/mdgen.py (mode 'free': every block/inline construct,
+    nesting <= 4, lazy lines, loose/tight lists, tables, HTML blocks), as generated and with the
+    vocabulary replaced by quote/bracket/ampersand-rich strings"""
+    from runtime import mdgen
+    out = []
+    for i in range(count):
+        try:
+            _t, x = mdgen.gen(seed * 1000003 + i, 'free')
+        except Exception:  # generator problem: not a case
+            continue
+        out.append(x)
+        y = x
+        for a, b in GEN_SUBST:
+            y = y.replace(a, b)
+        if y != x:
+            out.append(y)
+    return out
+
+
 FOREIGN_DOCS = ['<script>alert(1)</script>\n', 'a <b onmouseover="x()">b</b> c\n', '<div>\nraw\n</div>\n\ntext <i>x</i>\n',
                 '<!-- c -->\n\n> <span class="y">q</span>\n', '- <em>x</em>\n- <?php ?>\n']
 
@@ -458,7 +777,24 @@ def run(tier, seed, workers):
     muts = gen_mutations(spec, mut_maxlen, alpha_full8)
     seen.update(muts)
     attack = gen_attack(seen, alpha_full8, thorough)
-    for name, lst in (('SPEC', spec), ('SPEC-mutations', muts), ('ATTACK', attack)):
+
+    def dedup(lst):
+        out = []
+        for y in lst:
+            if y not in seen and not _in_alpha(y, alpha_full8):
+                seen.add(y)
+                out.append(y)
+        return out
+    img_alt = dedup(gen_image_alt())
+    autos = dedup(gen_autolinks())
+    cross = []
+    gen_attr_cross(cross.append)
+    cross = dedup(cross)
+    n_gen = 20000 if thorough else 2500
+    generated = dedup(gen_generated(seed, n_gen))
+    for name, lst in (('SPEC', spec), ('SPEC-mutations', muts), ('ATTACK', attack),
+                      ('IMAGE-ALT', img_alt), ('AUTOLINK', autos), ('ATTR-CROSS', cross),
+                      ('GENERATED', generated)):
         for ch in chunks(lst, max(1, min(len(lst) // 400 + 1, workers * 6))):
             jobs.append((_run_inputs, (name, ch)))
     # ALPHA: exhaustive
@@ -526,14 +862,42 @@ def run(tier, seed, workers):
             'sources) + %d single-character mutations (insert/duplicate/delete one of %r at every '
             'position of the examples of length <= %s) + ATTACK grammar (%d documents: %d '
             'one-slot templates x %d hostile strings, %d two-slot templates x %d^2, %d sinks x '
-            'all concatenations of two hostile strings) + ALPHA: all %d strings over %r of '
+            'all concatenations of two hostile strings) + directed families present for every '
+            'seed: IMAGE-ALT (%d documents: image descriptions made of %d inline atoms [emphasis, '
+            'code spans, nested links/images, autolinks, raw inline HTML, character references, '
+            'escapes, quotes, < > &, non-ASCII/astral], all pairs of %d core atoms joined by %d '
+            'joins [hard break by blanks / by backslash, soft break, blanks], three-line '
+            'descriptions; x %d image forms [inline, titled, reference full/collapsed/shortcut, '
+            'multi-line title] x %d inline contexts [paragraph, ATX/setext heading, emphasis, link '
+            'text, image description, table cell, duplicates] x %d block contexts [quote, list '
+            'item, nested, loose, each also with lazy continuation lines]), AUTOLINK (%d documents: '
+            '<scheme:body> with %d schemes and bodies over all pairs of %d hostile atoms with and '
+            'without "@", e-mail autolinks over every local-part special character of %r singly '
+            'and pairwise and 12 domain shapes; x inline and block contexts), ATTR-CROSS (%d '
+            'documents: %d + %d sinks [link href/title, image src/title/alt, autolink href, fence '
+            'info string, reference definitions incl. duplicates and multi-line titles, table '
+            'cells, list items] x %d further hostile strings [newline, tab, CR, control and '
+            'Unicode line separators, percent-encodings, character references of quotes and '
+            'newlines, escapes, astral] , the new sinks x the %d hostile strings, every sink x 16 '
+            'short hostile strings x the block contexts, %d ordered-list start spellings x {. )} '
+            'x 7 bodies x contexts, %d header x %d delimiter x %d body table rows [short and '
+            'over-long rows, identical sibling rows, no body], empty-content forms) + GENERATED '
+            '(%d seeded structural documents of runtime/mdgen.py mode free from %d generator '
+            'seeds, as generated and with the vocabulary replaced by quote/bracket/ampersand-rich '
+            'strings; nesting <= 4, loose/tight lists, lazy lines, tables, HTML blocks) + ALPHA: '
+            'all %d strings over %r of '
             'length <= %d (exhaustive; all 8 option combinations up to length %d, beyond that %s)'
             '%s; helper contracts escape_html_text (4 option combos) / '
             'html.escape / escape_url on every code point 0..0x10FFFF (escape_url skips lone '
             'surrogates) and on %d random concatenations (seeded)'
             % (len(spec), len(muts), MUT_CHARS, 'any (no length limit)' if thorough else mut_maxlen,
                len(attack), len(TEMPLATES), len(HOSTILE), len(TEMPLATES2), len(HOSTILE),
-               len(TEMPLATES) if thorough else len(CONCAT_SINKS), n_alpha, ''.join(SIGMA),
+               len(TEMPLATES) if thorough else len(CONCAT_SINKS),
+               len(img_alt), len(ALT_ATOMS), len(ALT_CORE), len(ALT_JOINS), len(IMG_FORMS),
+               len(INLINE_CTX), len(BLOCK_CTX), len(autos), len(AUTO_SCHEMES), len(AUTO_BODY),
+               EMAIL_SPECIALS, len(cross), len(TEMPLATES), len(TEMPLATES_EXTRA), len(HOSTILE_EXTRA),
+               len(HOSTILE), len(ORDERED_STARTS), len(CELL_ROWS), len(ALIGN_ROWS), len(CELL_ROWS),
+               len(generated), n_gen, n_alpha, ''.join(SIGMA),
                alpha_full, alpha_full8,
                'the 4 combinations with html_escape_double_quotes == html_escape_single_quotes'
                if beyond == 4 else 'the 2 combinations all-off / all-on',
